@@ -1,16 +1,16 @@
 PROPS = {
-    "C18": dict(engine="proxymon", race=False, level="exploration", design="C18",
+    "C18": dict(engine="proxymon", race=False, also=[dict(engine="proxyduplex", race=True)], level="exploration", design="C18",
                 technique="runtime monitor: real obfuscated2 Handshake <-> real Accept over a chunking byte pipe with adversarial random sources; passive specification tap on the wire; listener path end to end",
                 text="Thousands of sessions (tags, int16 DC ids incl. negative/test, secrets none/16/parsed dd-ee/long-prefix, random streams that start with every reserved pattern) "
                      "must recover the same tag and DC, carry unique-content blocks unchanged in both directions under 1-byte / boundary+-1 / random read chunking, and never put a reserved "
                      "prefix on the wire; transport.ObfuscatedListener + Listener path exchanged messages; a (n>0, err) reader is a separate sub-workload with its own signature.",
-                note="Trusted: harness pipe (io.Reader contract), the engine-local reference (refobfs2.go) transcription of the transport-obfuscation text, crypto/aes+CTR+sha256. Inputs sampled; single goroutine (no schedule races claimed).",
+                note="Trusted: harness pipe (io.Reader contract), the engine-local reference (refobfs2.go) transcription of the transport-obfuscation text, crypto/aes+CTR+sha256. Inputs sampled. Engine proxymon is single-goroutine; engine proxyduplex (-race) adds full-duplex sessions (writer+reader goroutine per endpoint, bounded pipe with back-pressure and scripted mid-Write stalls): schedules sampled, not enumerated.",
                 watchdog={"quick": 300, "thorough": 2400}),
-    "C19": dict(engine="proxymon", race=False, level="exploration", design="C19",
+    "C19": dict(engine="proxymon", race=False, also=[dict(engine="proxyduplex", race=True)], level="exploration", design="C19",
                 technique="runtime monitor: real FakeTLS writer -> independent record parser + real FakeTLS reader over a chunking pipe; harness-side FakeTLS server with right/wrong digests against the real client handshake",
                 text="Write sequences of lengths 0..4 MiB (dense around 16384, 65535, 131072) must appear on the wire as whole records carrying exactly the written bytes and be read back unchanged "
                      "under any read chunking; the real client Handshake must accept a server hello with the correct HMAC (0..15 extra handshake records) and reject wrong secret, wrong client random, "
                      "each of the 256 single digest bit flips and post-signature tampering; full obfuscator.FakeTLS stack against a harness TLS server feeding the real obfuscated2.Accept.",
-                note="Trusted: harness record parser/server written from the MTProxy FakeTLS description, crypto/hmac, crypto/sha256. Inputs sampled except the 256 digest bit positions.",
+                note="Trusted: harness record parser/server written from the MTProxy FakeTLS description, crypto/hmac, crypto/sha256. Inputs sampled except the 256 digest bit positions. Engine proxyduplex (-race) adds full-duplex FakeTLS sessions over a bounded pipe with back-pressure and scripted stalls inside Write calls; schedules sampled, not enumerated.",
                 watchdog={"quick": 300, "thorough": 2400}),
 }
